@@ -12,6 +12,7 @@ E.register_plan(R, "C11")
 E.register_run_test(R, "C11")
 E.register_worker_task(R, "C11")
 E.register_stateful_loop(R, "C11")
+E.register_stateful_execute(R, "C11")
 
 TRUSTED_BASE = ["E5 queue.Queue FIFO per producer, threading.Event, Thread.is_alive"]
 ASSUMPTIONS = ["sequential consumer; worker interleavings only through the queue contract (any event, Empty, KeyboardInterrupt at the blocking get)"]
@@ -39,7 +40,11 @@ def _executor_stub(name):
 
 
 R.contract(PH + ".probes:execute", args={"ctx": Opq("Any"), "phase": Opq("Any")}, returns=_executor_stub("probes"), trusted=True, note="own contract below")
-R.contract(PH + ".stateful:execute", args={"ctx": Opq("Any"), "phase": Opq("Any")}, returns=_executor_stub("stateful"), trusted=True, note="execute_state_machine_loop contracts")
+_se = R.contracts[PH + ".stateful:execute"]  # (verified above; here its call-site view)
+_se.returns = _executor_stub("stateful")
+_se.call_ensures = {}
+_se.modifies = {}
+_se.requires_are_representation_invariant = True
 _ue = R.contracts[PH + ".unit:execute"]
 _ue.returns = _executor_stub("unit")
 _ue.call_ensures = {}
